@@ -285,14 +285,14 @@ def single_impl_rules(facts, rep, D):
                     if name == "join":
                         # the caller's string reaches the shared normaliser untouched (no trimming / prefix stripping /
                         # re-writing in the wrapper: children listed by read_dir never pass through it)
-                        a = src[2][2] if len(src[2]) >= 3 else ("x",)
+                        a = src[2][2] if (src[0] == "call" and len(src) > 2 and len(src[2]) >= 3) else ("x",)
                         while a[0] == "call" and a[1] in ("AsRef::as_ref", "Deref::deref", "Borrow::borrow", "String::as_str",
                                                           "str::as_ref", "ToString::to_string", "ToOwned::to_owned", "Into::into",
                                                           "From::from", "Clone::clone") and a[2]:
                             a = a[2][0]
                         exact = a[0] == "arg" and a[1] == 1
                         if good_p and not exact:
-                            why_join = "the join argument is rewritten before normalisation: %s" % fmt(src[2][2])[:70]
+                            why_join = "the join argument is rewritten before normalisation: %s" % fmt(a)[:70]
                         good_p = good_p and exact
                     good_f = f is not None and f[0] == "field" and f[2] == "fs" and f[1][0] == "arg" and f[1][1] == 0
                     ok = ok and good_p and good_f
